@@ -332,4 +332,48 @@ def printAll : List Bytes → Wr → Wr
   | [], w => w
   | s :: ss, w => printAll ss (w.printLine s)
 
+/-! ### which type a target variable has (Memory.complete_name, Memory.deftype_) -/
+
+/-- Memory.deftype: the default sigil of each initial letter A..Z (`!` after CLEAR / at start) -/
+abbrev DefTab := List Nat
+
+def defaultTab : DefTab := List.replicate 26 33
+
+/-- Memory.deftype_ for one `start[-stop]` range (0-based letter indices):
+`self.deftype[start:stop+1] = [sigil] * (stop-start+1)`; a reversed range assigns an empty list to an empty slice -/
+def defType (tab : DefTab) (sigil start stop : Nat) : DefTab :=
+  if stop < start then tab
+  else tab.take start ++ List.replicate (stop - start + 1) sigil ++ tab.drop (stop + 1)
+
+def upperByte (b : Nat) : Nat := if 97 ≤ b ∧ b ≤ 122 then b - 32 else b
+
+/-- tk.SIGILS = # ! % $ -/
+def isSigil (b : Nat) : Bool := b = 35 || b = 33 || b = 37 || b = 36
+
+/-- Memory.complete_name: add the default sigil of the initial letter when the name has none -/
+def completeName (tab : DefTab) (name : Bytes) : Bytes :=
+  match name, name.getLast? with
+  | c :: _, some l => if isSigil l then name else name ++ [tab.getD (upperByte c - 65) 33]
+  | _, _ => name
+
+/-- `self.memory.complete_name(name)[-1:] == values.STR` — what _input_file / line_input_ test -/
+def varIsStr (tab : DefTab) (name : Bytes) : Bool := (completeName tab name).getLast? = some 36
+
+/-- one variable of INPUT #f, … (Implementation._input_file): the type comes from the COMPLETED name -/
+def Rd.inputVar (r : Rd) (tab : DefTab) (name : Bytes) : R (Bytes × Bytes) × Rd := r.inputEntry (varIsStr tab name)
+
+/-- LINE INPUT #f, name (Implementation.line_input_): Type mismatch, before anything is read, unless the
+completed name is a string variable -/
+def Rd.lineInputVar (r : Rd) (tab : DefTab) (name : Bytes) : R Bytes × Rd :=
+  if varIsStr tab name then r.lineInput else (.error Gen.E.type_mismatch, r)
+
+/-- INPUT #f, name₁, name₂, … over a list of target variables, EOF(f) after each -/
+def readVars (tab : DefTab) (names : List Bytes) (r : Rd) : List (R Bytes × Bool) × Rd :=
+  readEntries (names.map (varIsStr tab)) r
+
+/-- a WRITE# item given as a variable: the expression evaluator completes the name, a string variable is quoted -/
+def itemOfVar (tab : DefTab) (name payload : Bytes) : Item :=
+  if varIsStr tab name then .str payload else .num payload
+
+
 end PcbV.SeqFile
